@@ -99,7 +99,7 @@ for it in range(R.n(6, 40)):
     nspec, nch = rng.choice([64, 96, 128]), rng.randint(1, 4)
     x = nrng.normal(size=(nspec, nch)) + 1j * nrng.normal(size=(nspec, nch))
     y = nrng.normal(size=(nspec, nch)) + 1j * nrng.normal(size=(nspec, nch))
-    fl, k = rng.choice([4, 8, 16]), rng.choice([1, 2, 3])
+    fl, k = rng.choice([4, 8, 16, 3, 5, 15, 1]), rng.choice([1, 2, 3])
     out = waterfall.get_pfb_waterfall(x, y, fftlength=fl, int_factor=k)
     nw = nspec // fl
     ref = np.zeros((nw // k, nch * fl))
